@@ -110,40 +110,55 @@ def r1(cx):
     cx.floor("C04.R1", "protocol writes examined", nwrites, 2)
 
 
+def _flag_form_match(body, field):
+    """`matches!(x, Some(Request{field: Some(true), ..}))`-shaped code in `body`: (ok, why)"""
+    cfg = Cfg(body); du = DefUse(body)
+    read = set()
+    for b in body.blocks:
+        places = []
+        for s in b.stmts:
+            if s.kind == "assign":
+                places += [o.place for o in s.ops if o.place is not None] + ([s.rplace] if s.rplace is not None else [])
+        if b.term.kind == "switch" and b.term.discr.place is not None: places.append(b.term.discr.place)
+        if b.term.kind == "call":
+            places += [a.place for a in b.term.args if a.place is not None]
+        for p in places:
+            for f in p.fields():
+                if f in ("oneway", "more", "upgrade", "method", "parameters"): read.add(f)
+    if read != {field}: return False, "reads request fields %s, expected only {%s}" % (sorted(read), field), read
+    trues = [s for s in body.stmts() if s.kind == "assign" and s.lhs.l == 0 and s.rv == "use" and s.ops[0].is_const and s.ops[0].cint() == 1]
+    falses = [s for s in body.stmts() if s.kind == "assign" and s.lhs.l == 0 and s.rv == "use" and s.ops[0].is_const and s.ops[0].cint() == 0]
+    if len(trues) == 1 and falses:
+        from vlib.cond import dominating_edges
+        labels = [lab for (_, lab, _) in dominating_edges(cfg, trues[0].bb)]
+        if labels.count(1) >= 1 and "otherwise" in labels: return True, "", read
+        return False, "`true` is returned without testing %s == Some(true) (edges %s)" % (field, labels), read
+    # value forms: unwrap_or(false) / == Some(true)
+    sl = Slice(body, du)
+    rets = [t for t in body.calls() if t.dest is not None and t.dest.l == 0 and not t.dest.p]
+    for t in rets:
+        n = t.callee.name
+        if n == "unwrap_or" and len(t.args) == 2 and t.args[1].is_const and t.args[1].cint() == 0: return True, "", read
+        if n in ("eq",) : return True, "", read
+        if n in ("is_some", "is_none", "unwrap_or_default", "unwrap"): return False, "the flag is evaluated with %s(): `%s: false` (or an absent member) is not distinguished from `true`" % (n, field), read
+    return False, "no recognised evaluation of %s == Some(true)" % field, read
+
+
 def r1_flag(cx, rule="C04.R1", only=None):
     for fn, field in (("is_oneway", "oneway"), ("wants_more", "more")):
         if only and fn not in only: continue
         body = cx.mir.one("varlink", "<Call<'_> as CallTrait>::%s" % fn)
         cx.saw(body)
-        cfg = Cfg(body); du = DefUse(body)
-        read = set()
-        for b in body.blocks:
-            places = []
-            for s in b.stmts:
-                if s.kind == "assign":
-                    places += [o.place for o in s.ops if o.place is not None] + ([s.rplace] if s.rplace is not None else [])
-            if b.term.kind == "switch" and b.term.discr.place is not None: places.append(b.term.discr.place)
-            for p in places:
-                for f in p.fields():
-                    if f in ("oneway", "more", "upgrade", "method", "parameters"): read.add(f)
-        trues = [s for s in body.stmts() if s.kind == "assign" and s.lhs.l == 0 and s.rv == "use" and s.ops[0].is_const and s.ops[0].cint() == 1]
-        falses = [s for s in body.stmts() if s.kind == "assign" and s.lhs.l == 0 and s.rv == "use" and s.ops[0].is_const and s.ops[0].cint() == 0]
-        ok = read == {field} and len(trues) == 1 and len(falses) >= 1
-        why = []
-        if read != {field}: why.append("reads request fields %s, expected only {%s}" % (sorted(read), field))
-        if ok:
-            # the `true` block is reached only when request is Some, flag is Some, and the bool is non-zero: three nested tests
-            from vlib.cond import dominating_edges
-            doms = dominating_edges(cfg, trues[0].bb)
-            labels = []
-            for (src, lab, dst) in doms:
-                labels.append(lab)
-            # two discriminant==1 (Some) edges and one "otherwise" (bool != 0) edge
-            ok = labels.count(1) >= 2 and "otherwise" in labels
-            if not ok: why.append("`true` is returned without the three tests request=Some, %s=Some, value=true (edges %s)" % (field, labels))
-        elif len(trues) != 1:
-            why.append("%d `true` results" % len(trues))
-        cx.check(ok, rule, "varlink:Call::%s:flag" % fn, body.sp, "; ".join(why), note_ok="true iff request.%s == Some(true)" % field)
+        ok, why, read = _flag_form_match(body, field)
+        if not ok and not read:
+            # combinator form: self.request.map_or(false, |r| <flag expression>)
+            du = DefUse(body)
+            mo = [t for t in body.calls("=map_or", "=is_some_and", "=map_or_else")]
+            clos = [b for b in cx.mir.bodies("varlink") if b.promoted is None and b.parent == body.path]
+            if len(mo) == 1 and len(clos) == 1 and (mo[0].callee.name != "map_or" or (mo[0].args[1].is_const and mo[0].args[1].cint() == 0)):
+                ok, why, read = _flag_form_match(clos[0], field)
+                cx.saw(clos[0])
+        cx.check(ok, rule, "varlink:Call::%s:flag" % fn, body.sp, why, note_ok="true iff request.%s == Some(true)" % field)
 
 
 def r1_ctor(cx):
@@ -168,7 +183,7 @@ def r2(cx):
     # (a) oneway(): only send(self, true, false, false)
     calls = [t for t in oneway.calls() if not t.callee.indirect]
     sends = [t for t in calls if t.callee.name == "send"]
-    others = [t for t in calls if t.callee.name in ("recv", "read_until", "read", "read_line", "read_to_end", "call", "more", "upgrade", "fill_buf")]
+    others = [t for t in calls if t.callee.name in ("recv", "read_until", "read_line", "read_to_end", "call", "more", "upgrade", "fill_buf") or (t.callee.name == "read" and "io::" in t.callee.resolved)]
     flags = [a.cint() if a.is_const else None for a in sends[0].args[1:]] if sends else None
     cx.check(len(sends) == 1 and not others and flags == [1, 0, 0], "C04.R2", "varlink:MethodCall::oneway:send-only", oneway.sp,
              "oneway() must call send(true,false,false) and nothing that reads (send calls: %d, flags: %s, reading calls: %s)" % (len(sends), flags, [str(t.callee) for t in others]),
@@ -189,7 +204,8 @@ def r2(cx):
         if len(ds) == 1 and ds[0][0] == "stmt" and ds[0][1].rplace is not None and "reader" in ds[0][1].rplace.fields() \
            and "Connection" in send.ty(ds[0][1].rplace.l):
             takes.append(t)
-    rd = [t for t in send.calls() if not t.callee.indirect and t.callee.name in ("read_until", "read", "read_line", "fill_buf", "recv")]
+    rd = [t for t in send.calls() if not t.callee.indirect and t.callee.name in ("read_until", "read", "read_line", "fill_buf", "recv", "read_exact", "read_to_end")
+          and ("io::" in t.callee.resolved or "BufRead" in (t.callee.trait or "") or t.callee.name == "recv")]
     good = bool(takes) and all(t.bb not in cfg.reach(0, blocked_edges=false_edges) for t in takes) and not rd
     cx.check(good, "C04.R2", "varlink:MethodCall::send:reader-not-taken-when-oneway", send.sp,
              "on the oneway path the connection's reader is taken (or read): a later call would find the connection busy or consume a foreign reply",
